@@ -15,7 +15,8 @@ Check (C11_restart_committed
          (dec_tts : blob -> option (N * N)) (enc_icd : list (N * N) -> blob)
          (dec_icd : blob -> option (list (N * N))) (enc_ota : list (N * N) -> blob)
          (dec_ota : blob -> option (list (N * N))) (enc_scenes : list (N * N) -> blob)
-         (dec_scenes : blob -> option (list (N * N))),
+         (dec_scenes : blob -> option (list (N * N))) (enc_sub : N * N -> blob)
+         (dec_sub : blob -> option (N * N)),
        (forall (i : N) (f : fabric), dec_fab (enc_fab i f) = Some (i, f)) ->
        (forall v : basic, dec_basic (enc_basic v) = Some v) ->
        (forall v : nets, dec_nets (enc_nets v) = Some v) ->
@@ -27,12 +28,13 @@ Check (C11_restart_committed
        (forall v : list (N * N), dec_icd (enc_icd v) = Some v) ->
        (forall v : list (N * N), dec_ota (enc_ota v) = Some v) ->
        (forall v : list (N * N), dec_scenes (enc_scenes v) = Some v) ->
+       (forall v : N * N, dec_sub (enc_sub v) = Some v) ->
        forall st : state blob,
        Inv blob enc_fab enc_basic enc_nets enc_labels enc_binds enc_res enc_tz enc_tts enc_icd enc_ota
-         enc_scenes st ->
+         enc_scenes enc_sub st ->
        exists r : ram,
          boot blob dec_fab dec_basic dec_nets dec_labels dec_binds enc_res dec_res dec_tz dec_tts dec_icd
-           dec_ota dec_scenes (s_kv st) = Some r /\ committed_view blob st r).
+           dec_ota dec_scenes enc_sub dec_sub (s_kv st) = Some r /\ committed_view blob st r).
 
 Check (C11_prefix_consistent
   : forall (blob : Type) (enc_fab : N -> fabric -> blob) (dec_fab : blob -> option (N * fabric))
@@ -44,7 +46,8 @@ Check (C11_prefix_consistent
          (dec_tts : blob -> option (N * N)) (enc_icd : list (N * N) -> blob)
          (dec_icd : blob -> option (list (N * N))) (enc_ota : list (N * N) -> blob)
          (dec_ota : blob -> option (list (N * N))) (enc_scenes : list (N * N) -> blob)
-         (dec_scenes : blob -> option (list (N * N))),
+         (dec_scenes : blob -> option (list (N * N))) (enc_sub : N * N -> blob)
+         (dec_sub : blob -> option (N * N)),
        (forall (i : N) (f : fabric), dec_fab (enc_fab i f) = Some (i, f)) ->
        (forall v : basic, dec_basic (enc_basic v) = Some v) ->
        (forall v : nets, dec_nets (enc_nets v) = Some v) ->
@@ -56,37 +59,38 @@ Check (C11_prefix_consistent
        (forall v : list (N * N), dec_icd (enc_icd v) = Some v) ->
        (forall v : list (N * N), dec_ota (enc_ota v) = Some v) ->
        (forall v : list (N * N), dec_scenes (enc_scenes v) = Some v) ->
+       (forall v : N * N, dec_sub (enc_sub v) = Some v) ->
        forall (st0 : state blob) (ops : list op) (n : nat),
        Inv blob enc_fab enc_basic enc_nets enc_labels enc_binds enc_res enc_tz enc_tts enc_icd enc_ota
-         enc_scenes st0 ->
+         enc_scenes enc_sub st0 ->
        (n <=
         length
           (full_log blob
              (snd
                 (run blob enc_fab dec_fab enc_basic dec_basic enc_nets dec_nets enc_labels dec_labels
                    enc_binds dec_binds enc_res dec_res enc_tz dec_tz enc_tts dec_tts enc_icd dec_icd enc_ota
-                   dec_ota enc_scenes dec_scenes true st0 ops))))%nat ->
+                   dec_ota enc_scenes dec_scenes enc_sub dec_sub true st0 ops))))%nat ->
        (forall j : nat,
         ~
         cut_inside blob enc_fab dec_fab enc_basic dec_basic enc_nets dec_nets enc_labels dec_labels enc_binds
           dec_binds enc_res dec_res enc_tz dec_tz enc_tts dec_tts enc_icd dec_icd enc_ota dec_ota enc_scenes
-          dec_scenes st0 ops n j) ->
+          dec_scenes enc_sub dec_sub st0 ops n j) ->
        exists (j : nat) (r : ram),
          (j <= length ops)%nat /\
          boot blob dec_fab dec_basic dec_nets dec_labels dec_binds enc_res dec_res dec_tz dec_tts dec_icd
-           dec_ota dec_scenes
+           dec_ota dec_scenes enc_sub dec_sub
            (replay blob (s_kv st0)
               (firstn n
                  (full_log blob
                     (snd
                        (run blob enc_fab dec_fab enc_basic dec_basic enc_nets dec_nets enc_labels dec_labels
                           enc_binds dec_binds enc_res dec_res enc_tz dec_tz enc_tts dec_tts enc_icd dec_icd
-                          enc_ota dec_ota enc_scenes dec_scenes true st0 ops))))) = 
+                          enc_ota dec_ota enc_scenes dec_scenes enc_sub dec_sub true st0 ops))))) = 
          Some r /\
          committed_view blob
            (state_at blob enc_fab dec_fab enc_basic dec_basic enc_nets dec_nets enc_labels dec_labels
               enc_binds dec_binds enc_res dec_res enc_tz dec_tz enc_tts dec_tts enc_icd dec_icd enc_ota
-              dec_ota enc_scenes dec_scenes st0 ops j) r).
+              dec_ota enc_scenes dec_scenes enc_sub dec_sub st0 ops j) r).
 
 Check (C11_ack_implies_durable
   : forall (blob : Type) (enc_fab : N -> fabric -> blob) (dec_fab : blob -> option (N * fabric))
@@ -98,13 +102,14 @@ Check (C11_ack_implies_durable
          (dec_tts : blob -> option (N * N)) (enc_icd : list (N * N) -> blob)
          (dec_icd : blob -> option (list (N * N))) (enc_ota : list (N * N) -> blob)
          (dec_ota : blob -> option (list (N * N))) (enc_scenes : list (N * N) -> blob)
-         (dec_scenes : blob -> option (list (N * N))) (fx : bool) (st : state blob) 
-         (o : op),
+         (dec_scenes : blob -> option (list (N * N))) (enc_sub : N * N -> blob)
+         (dec_sub : blob -> option (N * N)) (fx : bool) (st : state blob) (o : op),
+       (forall (c : caller) (v : N), o <> OSub c v) ->
        ack_is_last blob
          (snd
             (step blob enc_fab dec_fab enc_basic dec_basic enc_nets dec_nets enc_labels dec_labels enc_binds
                dec_binds enc_res dec_res enc_tz dec_tz enc_tts dec_tts enc_icd dec_icd enc_ota dec_ota
-               enc_scenes dec_scenes fx st o)) = true).
+               enc_scenes dec_scenes enc_sub dec_sub fx st o)) = true).
 
 Check (C11_nothing_uncommitted
   : forall (blob : Type) (enc_fab : N -> fabric -> blob) (dec_fab : blob -> option (N * fabric))
@@ -116,13 +121,14 @@ Check (C11_nothing_uncommitted
          (dec_tts : blob -> option (N * N)) (enc_icd : list (N * N) -> blob)
          (dec_icd : blob -> option (list (N * N))) (enc_ota : list (N * N) -> blob)
          (dec_ota : blob -> option (list (N * N))) (enc_scenes : list (N * N) -> blob)
-         (dec_scenes : blob -> option (list (N * N))) (st : state blob) (o : op),
+         (dec_scenes : blob -> option (list (N * N))) (enc_sub : N * N -> blob)
+         (dec_sub : blob -> option (N * N)) (st : state blob) (o : op),
        gate_closed blob st o = true ->
        kvlog blob
          (snd
             (step blob enc_fab dec_fab enc_basic dec_basic enc_nets dec_nets enc_labels dec_labels enc_binds
                dec_binds enc_res dec_res enc_tz dec_tz enc_tts dec_tts enc_icd dec_icd enc_ota dec_ota
-               enc_scenes dec_scenes true st o)) = []).
+               enc_scenes dec_scenes enc_sub dec_sub true st o)) = []).
 
 Check (C11_factory_reset_empty
   : forall (blob : Type) (enc_fab : N -> fabric -> blob) (dec_fab : blob -> option (N * fabric))
@@ -134,14 +140,15 @@ Check (C11_factory_reset_empty
          (dec_tts : blob -> option (N * N)) (enc_icd : list (N * N) -> blob)
          (dec_icd : blob -> option (list (N * N))) (enc_ota : list (N * N) -> blob)
          (dec_ota : blob -> option (list (N * N))) (enc_scenes : list (N * N) -> blob)
-         (dec_scenes : blob -> option (list (N * N))) (st : state blob) (k : N),
+         (dec_scenes : blob -> option (list (N * N))) (enc_sub : N * N -> blob)
+         (dec_sub : blob -> option (N * N)) (st : state blob) (k : N),
        In k writable_keys ->
        aget
          (s_kv
             (fst
                (step blob enc_fab dec_fab enc_basic dec_basic enc_nets dec_nets enc_labels dec_labels
                   enc_binds dec_binds enc_res dec_res enc_tz dec_tz enc_tts dec_tts enc_icd dec_icd enc_ota
-                  dec_ota enc_scenes dec_scenes true st OReset))) k = None).
+                  dec_ota enc_scenes dec_scenes enc_sub dec_sub true st OReset))) k = None).
 
 Check (C11_bad_cache_boots
   : forall (blob : Type) (enc_fab : N -> fabric -> blob) (dec_fab : blob -> option (N * fabric))
@@ -153,7 +160,8 @@ Check (C11_bad_cache_boots
          (dec_tts : blob -> option (N * N)) (enc_icd : list (N * N) -> blob)
          (dec_icd : blob -> option (list (N * N))) (enc_ota : list (N * N) -> blob)
          (dec_ota : blob -> option (list (N * N))) (enc_scenes : list (N * N) -> blob)
-         (dec_scenes : blob -> option (list (N * N))),
+         (dec_scenes : blob -> option (list (N * N))) (enc_sub : N * N -> blob)
+         (dec_sub : blob -> option (N * N)),
        (forall (i : N) (f : fabric), dec_fab (enc_fab i f) = Some (i, f)) ->
        (forall v : basic, dec_basic (enc_basic v) = Some v) ->
        (forall v : nets, dec_nets (enc_nets v) = Some v) ->
@@ -165,14 +173,15 @@ Check (C11_bad_cache_boots
        (forall v : list (N * N), dec_icd (enc_icd v) = Some v) ->
        (forall v : list (N * N), dec_ota (enc_ota v) = Some v) ->
        (forall v : list (N * N), dec_scenes (enc_scenes v) = Some v) ->
+       (forall v : N * N, dec_sub (enc_sub v) = Some v) ->
        forall (st : state blob) (b : blob),
        Inv blob enc_fab enc_basic enc_nets enc_labels enc_binds enc_res enc_tz enc_tts enc_icd enc_ota
-         enc_scenes st ->
+         enc_scenes enc_sub st ->
        exists (r : ram) (ops : list (kvop blob)),
          startup blob dec_fab dec_basic dec_nets dec_labels dec_binds enc_res dec_res dec_tz dec_tts dec_icd
-           dec_ota dec_scenes (aset (s_kv st) K_RESUMP b) = Some (r, ops) /\
+           dec_ota dec_scenes enc_sub dec_sub (aset (s_kv st) K_RESUMP b) = Some (r, ops) /\
          committed_view blob st r /\
-         (dec_res b = None -> r_resump r = [] /\ ops = [KRemove K_RESUMP]) /\
+         (dec_res b = None -> r_resump r = [] /\ In (KRemove K_RESUMP) ops) /\
          (aget (replay blob (aset (s_kv st) K_RESUMP b) ops) K_RESUMP = None \/
           (exists l : list (N * N),
              dec_res b = Some l /\
